@@ -14,6 +14,7 @@ mod sendecho;
 mod logs;
 mod memtransport;
 mod meta;
+mod multirun;
 mod plan;
 mod reply;
 mod sched;
@@ -72,7 +73,7 @@ fn main() {
     }
     // sequential ops: a case that never returns is reported as that case (see util::start_monitor)
     if [
-        "meta", "sched", "cands", "instev", "daemon", "build", "ser", "plan", "sendecho",
+        "meta", "sched", "cands", "instev", "daemon", "build", "ser", "plan", "sendecho", "multirun",
     ]
     .contains(&op.as_str())
     {
@@ -99,6 +100,7 @@ fn main() {
         "cands" => cands::main(&opts),
         "instev" => instev::main(&opts),
         "sendecho" => sendecho::main(&opts),
+        "multirun" => multirun::main(&opts),
         _ => {
             eprintln!("unknown op {op}");
             std::process::exit(2);
